@@ -109,6 +109,8 @@ impl Prop for C20 {
           }
           lines.push(format!("{}{}", ind, m));
           lines.push("{6 * 7}".into()); lines.push("{foo/bar}".into()); lines.push("x := {a: 1}".into());
+          // brace lines that contain ".mec" without ending in it are not includes
+          for l in ["{robot.mechanism}", "{archive/notes.mec.bak}", "{cfg.mecanum-wheels}", "{x.mecx}", "{a.mec b}"] { if rng.chance(1, 3) { lines.push(l.into()); } }
           // an include AFTER the fence block (forward edge): it is expanded only if the fence above was recognised as closed
           if i + 1 < nfiles && rng.chance(1, 2) { lines.push(format!("{{{}}}", rel(FILES[i], FILES[i + 1], &mut rng))); lines.push(format!("F{} after the fence", i)); }
           if variant == "fences" && rng.chance(1, 4) { lines.push("~~~".into()); lines.push(format!("{{{}}}", FILES[0])); } // unclosed fence swallows the rest
